@@ -222,21 +222,19 @@ theorem c15_atomic_step_is_model_step (c : Cfg) (cf : Conf (List (Entry V)) (Lis
 
 /-! ### non-vacuity: concrete histories where the interesting branches fire -/
 
-def cfg2 : Cfg := { maxsize := 2 }
-
 /-- LRU: `get a` saves `a`, so `set c` pops `b`; values are the latest ones -/
-example : (trace cfg2 [Op.set "a" (1 : Nat) none 0 0, .set "b" 2 none 0 0, .get "a" 1, .set "c" 3 none 1 1,
+example : (trace ({ maxsize := 2 } : Cfg) [Op.set "a" (1 : Nat) none 0 0, .set "b" 2 none 0 0, .get "a" 1, .set "c" 3 none 1 1,
                        .get "b" 1, .get "a" 1]).map (fun o => (o.out, o.keys))
     = [(.done, ["a"]), (.done, ["a", "b"]), (.got (some 1), ["b", "a"]), (.done, ["a", "c"]),
        (.got none, ["a", "c"]), (.got (some 1), ["c", "a"])] := by decide
 
 /-- the victim of that `set c` is `b`, and `c15_evict_only_lru`'s hypothesis is satisfiable -/
-example : (capVictims cfg2 (run cfg2 [Op.set "a" (1 : Nat) none 0 0, .set "b" 2 none 0 0, .get "a" 1])
+example : (capVictims ({ maxsize := 2 } : Cfg) (run ({ maxsize := 2 } : Cfg) [Op.set "a" (1 : Nat) none 0 0, .set "b" 2 none 0 0, .get "a" 1])
     (.set "c" 3 none 1 1)).map (·.key) = ["b"] := by decide
 
 /-- TTL: alive before the deadline, gone AT it; ttl 0 / negative never expire; the purge of a later `set`
     removes an expired entry; a slow `set` (clock passes the deadline inside the call) purges its own entry -/
-example : (trace cfg2 [Op.set "a" (1 : Nat) (some 2) 0 0, .get "a" 1, .get "a" 2, .set "a" 2 (some 0) 2 2,
+example : (trace ({ maxsize := 2 } : Cfg) [Op.set "a" (1 : Nat) (some 2) 0 0, .get "a" 1, .get "a" 2, .set "a" 2 (some 0) 2 2,
                        .set "b" 3 (some (-1)) 2 2, .get "a" 99, .get "b" 99, .set "a" 4 (some 2) 99 99,
                        .set "b" 5 none 101 101, .set "a" 6 (some 2) 101 103]).map (fun o => (o.out, o.keys))
     = [(.done, ["a"]), (.got (some 1), ["a"]), (.got none, []), (.done, ["a"]), (.done, ["a", "b"]),
@@ -251,8 +249,8 @@ example : (trace { maxsize := -1 } [Op.set "a" (1 : Nat) none 0 0, .get "a" 0]).
 
 /-- the monotone-clock hypothesis of `c15_get_latest` is satisfiable, `evicted` is not constantly false -/
 example : monoFrom 0 ([Op.set "a" (1 : Nat) (some 2) 0 0, .get "a" 1] ++ [.get "a" 2]) := by simp [monoFrom, lastTime]
-example : evicted cfg2 [Op.set "a" (1 : Nat) none 0 0, .set "b" 2 none 0 0, .set "c" 3 none 0 0] "a" = true := by decide
-example : evicted cfg2 [Op.set "a" (1 : Nat) none 0 0, .set "b" 2 none 0 0, .set "c" 3 none 0 0] "b" = false := by decide
+example : evicted ({ maxsize := 2 } : Cfg) [Op.set "a" (1 : Nat) none 0 0, .set "b" 2 none 0 0, .set "c" 3 none 0 0] "a" = true := by decide
+example : evicted ({ maxsize := 2 } : Cfg) [Op.set "a" (1 : Nat) none 0 0, .set "b" 2 none 0 0, .set "c" 3 none 0 0] "b" = false := by decide
 
 /-- the observation spec is not trivially true: it rejects a stale value, an over-full dict and a wrong victim -/
 example : traceOk 2 [⟨Op.set "a" (1 : Nat) (some 2) 0 0, .done, ["a"]⟩, ⟨.get "a" 2, .got (some 1), ["a"]⟩] = false := by decide
